@@ -576,16 +576,17 @@ def file_case(text, must, checker):
     routes = [r for nb in c.neighbors.values() for r in nb.routes]
     if not routes:
         return {'what': 'configuration accepted but the definition produced no route', 'input': inp}
-    decs = {}
+    decs, seen = {}, set()
     for r in routes:
+        if r.extensive() in seen:
+            continue  # the flow / vpls sections list their route twice in neighbor.routes: look at one of each
+        seen.add(r.extensive())
         f, dec = encode_everywhere(r, text, own_decoder=True)
         if f:
             f['input'] = inp
             return f
         for k, v in dec.items():
-            decs.setdefault(k, [])
-            if not decs[k]:
-                decs[k].extend(v)  # the flow / vpls sections list their route twice in neighbor.routes: look at one
+            decs.setdefault(k, []).extend(v)
     if must is False:
         return {'what': 'a configuration the wire format cannot hold (or which lacks a mandatory part) was accepted', 'input': inp}
     if checker is not None:
@@ -709,6 +710,13 @@ def extra_cases():
     c.append(('announce ipv6 multicast ff0e::/64 next-hop 2001:db8::1', True, None))
     c.append(('announce vpls rd 65000:1 endpoint 5 base 10702 offset 1 size 8 next-hop self', None, None))
     c.append((f'announce route 10.0.0.0/24 next-hop self', True, None))
+    # next-hop written twice: two values are written and one can be carried (the route kept the last, the attribute the first)
+    for twice in ('next-hop 192.0.2.1 next-hop 192.0.2.2', 'next-hop self next-hop 192.0.2.1', 'next-hop 192.0.2.1 next-hop self'):
+        c.append((f'announce route 10.0.0.0/24 {twice}', False, None))
+        c.append((f'announce ipv4 unicast 10.0.0.0/24 {twice}', False, None))
+        c.append(('announce route 10.0.0.0/24 { %s; }' % twice.replace(' next-hop', '; next-hop'), False, None))
+    c.append(('announce ipv6 unicast 2001:db8::/32 next-hop 2001:db8::1 next-hop 2001:db8::2', False, None))
+    c.append(('announce route 10.0.0.0/24 next-hop 192.0.2.1 next-hop 192.0.2.1', None, None))
     # every attribute keyword with a valid value, on the `announce <afi> <safi>` forms too (they share one schema)
     for head in ('announce ipv4 unicast 10.0.0.0/24 next-hop 192.0.2.1', 'announce ipv4 nlri-mpls 10.0.0.0/24 next-hop 192.0.2.1 label 5', 'announce ipv6 unicast 2001:db8::/32 next-hop 2001:db8::1', R4):
         c.append((f'{head} aigp 5', True, None))  # AIGP leaves only towards a neighbor configured for it
@@ -726,7 +734,9 @@ def extra_cases():
         c.append((f'{head} path-information 1.2.3.4', True, None))
         c.append((f'{head} name probe', True, None))
         c.append((f'{head} watchdog probe', True, None))
-        c.append((f'{head} split /25', True, None))
+        # the prefix of `head` cut in two: the value written is carried (it was accepted and the /24 -- the /32 -- announced)
+        two = ['2001:db8::/33', '2001:db8:8000::/33'] if '2001' in head else ['10.0.0.0/25', '10.0.0.128/25']
+        c.append((f'{head} split /{33 if "2001" in head else 25}', True, _prefixes_on_wire(two)))
     # sizes: the two-octet attribute length, the 4095 octet flow NLRI
     c.append((f'{R4} attribute [ 0x99 0xc0 0x{"ab" * 65535} ]', None, None))
     c.append((f'{R4} attribute [ 0x99 0xc0 0x{"ab" * 65536} ]', False, None))
